@@ -33,6 +33,7 @@ type Op struct {
 	Fault  string `json:"fault,omitempty"` // "", get, put0, put1, send
 	Async  bool   `json:"async,omitempty"` // go through HandleInbound (goroutine) instead of the sync hook
 	Alias  bool   `json:"alias,omitempty"` // fwd: the recipient's DID resolves to a document with a different id
+	Pad    int    `json:"pad,omitempty"`   // payloads of this history are padded to that many bytes (largest value of the history counts)
 }
 
 // Obs is what the implementation did for one op.
@@ -134,10 +135,20 @@ func newWorld() *world {
 	return w
 }
 
-func payloadOf(m int) []byte { return []byte(fmt.Sprintf("m%d", m)) }
+// padTo > 0: payloads are padded with blanks to that many bytes (large-message histories)
+var padTo int
+
+func payloadOf(m int) []byte {
+	b := []byte(fmt.Sprintf("m%d", m))
+	for len(b) < padTo {
+		b = append(b, ' ')
+	}
+
+	return b
+}
 
 func msgNum(b []byte) int {
-	n, err := strconv.Atoi(strings.TrimPrefix(string(b), "m"))
+	n, err := strconv.Atoi(strings.TrimPrefix(strings.TrimRight(string(b), " "), "m"))
 	if err != nil {
 		return -1
 	}
@@ -396,6 +407,15 @@ func eqInts(a, b []int) bool {
 }
 
 func runHistory(kind string, ops []Op, tr *hx.Trace) {
+	padTo = 0
+	for _, o := range ops {
+		if o.Pad > padTo {
+			padTo = o.Pad
+		}
+	}
+
+	defer func() { padTo = 0 }()
+
 	w := newWorld()
 
 	for _, o := range ops {
@@ -701,6 +721,23 @@ func main() {
 				}
 			}
 		})
+	}
+
+	// large messages: the inbox holds several hundred KiB per message and several MiB in all; nothing in the property
+	// depends on sizes, so the model is the same
+	for i, sz := range []int{70_000, 400_000, 1_100_000} {
+		r := rng.Fork(uint64(5_000_000 + i))
+		n := 3 + r.Intn(3)
+		h := []Op{}
+
+		for j := 0; j < n; j++ {
+			h = append(h, Op{Kind: "add", DID: 1})
+		}
+
+		h = append(h, Op{Kind: "pickup", DID: 1, N: 2 + r.Intn(2)}, Op{Kind: "status", DID: 1, Thread: true},
+			Op{Kind: "pickup", DID: 1, N: 100, Fault: "send"}, Op{Kind: "pickup", DID: 1, N: 100}, Op{Kind: "status", DID: 1, Thread: true})
+		h[0].Pad = sz
+		runHistory(fmt.Sprintf("large-messages:%d", sz), number(h), tr)
 	}
 
 	for i := 0; i < nRandom/6; i++ {
